@@ -111,6 +111,50 @@ Theorem C41_invalid_rejected : forall St (A : appender St) maxT st0 r,
   Forall (fun e => valid_series (ev_labels e) = true) (r_trace (handle_v1 A maxT st0 r)).
 Proof. exact v1_invalid_skipped. Qed.
 
+(* Codec. Full statement: a native histogram (integer or float, any schema incl. custom buckets,
+   any spans / buckets / custom values / reset hint, floats as bit patterns), its timestamp and
+   start timestamp survive From*Histogram -> Marshal -> Unmarshal -> To*Histogram of either
+   protocol unchanged, bit for bit. Proved (_partial) for histograms whose sum and zero threshold
+   are not negative zero; missing: -0.0 in a scalar double field (refuted below). *)
+Theorem C41_codec_roundtrip_partial : forall st ts h, wire_safe h ->
+  (g_float h = false ->
+     let p := transmit (from_int st ts h) in
+     to_int p = Some h /\ is_float_hist p = false /\ p_ts p = ts /\ p_st p = st) /\
+  (g_float h = true ->
+     let p := transmit (from_float st ts h) in
+     to_float p = h /\ to_int p = None /\ is_float_hist p = true /\ p_ts p = ts /\ p_st p = st).
+Proof. exact codec_roundtrip. Qed.
+
+(* Every other double value of a sample / exemplar / histogram scalar survives the wire ... *)
+Theorem C41_value_roundtrip_partial : forall v, v <> negzero -> wire_f v = v.
+Proof. exact wire_f_id. Qed.
+
+(* ... but negative zero arrives as +0.0 (the generated proto3 marshaller writes a double only
+   `if m.X != 0`): Sample.value, Exemplar.value, Histogram.sum, Histogram.zero_threshold. *)
+Theorem C41_codec_negative_zero_refuted :
+  wire_f negzero <> negzero /\
+  g_float w_negz_hist = true /\ to_float (transmit (from_float 0 0 w_negz_hist)) <> w_negz_hist.
+Proof. exact codec_negzero_refuted. Qed.
+
+(* The float view of an integer histogram (ToFloatHistogram on an integer message): all fields
+   kept, counts converted with float64(), bucket counts = partial sums of the deltas (exact while
+   below 2^53). *)
+Theorem C41_codec_int_to_float : forall st ts h, g_float h = false ->
+  Forall small (g_pb h) -> Forall small (psums 0 (g_pb h)) ->
+  Forall small (g_nb h) -> Forall small (psums 0 (g_nb h)) ->
+  let f := to_float (transmit (from_int st ts h)) in
+  g_float f = true /\ g_hint f = g_hint h /\ g_schema f = g_schema h /\ g_zt f = wire_f (g_zt h)
+  /\ g_sum f = wire_f (g_sum h) /\ g_zc f = z2f (g_zc h) /\ g_count f = z2f (g_count h)
+  /\ g_pspans f = g_pspans h /\ g_nspans f = g_nspans h /\ g_custom f = g_custom h
+  /\ g_pb f = map bits_exact (psums 0 (g_pb h)) /\ g_nb f = map bits_exact (psums 0 (g_nb h)).
+Proof. exact int_to_float_view. Qed.
+
+Example C41_nonvacuous_codec :
+  let h := mkGH false 2 3 4562254508917369340 1 6 4617315517961601024 [(0, 2)] [2; 1] [(-1, 1)] [3] [] in
+  wire_safe h /\ g_pb (to_float (transmit (from_int 7 1000 h))) = [4611686018427387904; 4613937818241073152]
+  /\ z2f 9007199254740993 = 4845873199050653696 /\ z2f 18446744073709551615 = 4895412794951729152.
+Proof. exact nonvacuous_codec. Qed.
+
 (* non-vacuity *)
 Example C41_nonvacuous_partial_write :
   let res := handle_v2 (ideal_app dedup) w_big (mkIdeal [] []) w_req_mixed in
